@@ -175,6 +175,13 @@ class Integer(_PrimitiveType):
             return NotImplemented
 
     @_intrinsic
+    def __rmul__(self, lhs: int | Integer) -> Integer:
+        if isinstance(lhs, (int, Integer)):
+            return Integer(Integer.decay(lhs) * self._val)
+        else:
+            return NotImplemented
+
+    @_intrinsic
     def __floordiv__(self, rhs: int | Integer) -> Integer:
         raise AssertionError(
             f"CoHDL does not support floordiv (the '//' operator) for signed operations. Use cohdl.op.truncdiv instead."
@@ -199,6 +206,18 @@ class Integer(_PrimitiveType):
             return NotImplemented
 
     @_intrinsic
+    def _cohdl_rtruncdiv_(self, lhs: int | Integer) -> Integer:
+        if isinstance(lhs, (int, Integer)):
+            lhs = Integer.decay(lhs)
+            rhs = self._val
+
+            if rhs == 0:
+                return Integer()
+            return Integer(_int_truncdiv(lhs, rhs))
+        else:
+            return NotImplemented
+
+    @_intrinsic
     def __mod__(self, rhs: int | Integer) -> Integer:
 
         if isinstance(rhs, (int, Integer)):
@@ -212,11 +231,36 @@ class Integer(_PrimitiveType):
             return NotImplemented
 
     @_intrinsic
+    def __rmod__(self, lhs: int | Integer) -> Integer:
+        if isinstance(lhs, (int, Integer)):
+            lhs = Integer.decay(lhs)
+            rhs = self._val
+
+            if rhs == 0:
+                return Integer()
+            return Integer(lhs % rhs)
+        else:
+            return NotImplemented
+
+    @_intrinsic
     def _cohdl_rem_(self, rhs: int | Integer) -> Integer:
 
         if isinstance(rhs, (int, Integer)):
             lhs = self._val
             rhs = Integer.decay(rhs)
+
+            if rhs == 0:
+                return Integer()
+
+            return Integer(lhs - rhs * _int_truncdiv(lhs, rhs))
+        else:
+            return NotImplemented
+
+    @_intrinsic
+    def _cohdl_rrem_(self, lhs: int | Integer) -> Integer:
+        if isinstance(lhs, (int, Integer)):
+            lhs = Integer.decay(lhs)
+            rhs = self._val
 
             if rhs == 0:
                 return Integer()
